@@ -17,7 +17,7 @@ BUDGET = {"quick": 50, "thorough": 900}
 RULE = (
     "a worker with run_health_check_server=True (seeded address/port/endpoint, 1-3 queues, a stream of jobs) on the in-memory "
     "broker; the server runs on the stdlib asyncio Server class over simulated TCP. Seeded HTTP clients: well-formed GET on the "
-    "endpoint, other paths, other methods, truncated heads, binary, 1 MiB bodies, a valid request split across 2-5 segments, "
+    "endpoint, other paths, other methods, truncated heads, binary, 1 MiB bodies, a valid request split across 2-5 segments (equal parts or seeded cut positions, biased to the last five bytes), "
     "1-50 simultaneous connections, connections left idle; a consumer failure (consume() raises) at a seeded call, also while "
     "connections are open; connects before run(), during it and after it returned. Oracle: with H(t) = OK until the first "
     "consumer failure and UNHEALTHY after, a complete single-segment GET on the endpoint arriving at t gets 200/503 per H(t) "
@@ -38,6 +38,9 @@ def gen(rng, broker, tier):
                            "late-request"])
         clients.append({"kind": kind, "at_us": rng.choice([rng.randint(0, 2_500_000), rng.randint(0, 2_500_000), -200_000, 9_000_000]),
                         "n": rng.randint(2, 50) if kind == "burst" else 1, "parts": rng.randint(2, 5),
+                        # cut positions of a split request (negative: counted from the end, i.e. inside the final CRLFCRLF)
+                        "cuts": rng.choice([None, sorted({rng.choice([-1, -2, -3, -4, -5, rng.randint(1, 40)])
+                                                          for _ in range(rng.randint(1, 4))})]),
                         "hold_us": rng.choice([0, 100_000, 1_500_000, 20_000_000])})
     nq = rng.randint(1, 3)
     jobs = [{"id": f"j{i}", "name": f"a{i % nq}", "queue": f"q{i % nq}", "at_us": rng.randint(0, 2_000_000), "store_result": False,
@@ -146,6 +149,10 @@ async def _main(sim, sc, out):
         if k == "big":
             return [good + b"x" * (1 << 20)]
         if k == "split":
+            if c.get("cuts"):
+                pos = sorted({(len(good) + x) if x < 0 else min(x, len(good) - 1) for x in c["cuts"]} - {0, len(good)})
+                pos = [p_ for p_ in pos if 0 < p_ < len(good)]
+                return [good[a_:b_] for a_, b_ in zip([0] + pos, pos + [len(good)])]
             n = min(c["parts"], len(good) - 1)
             step = len(good) // n
             return [good[i * step:(i + 1) * step if i + 1 < n else len(good)] for i in range(n)]
